@@ -336,6 +336,12 @@ func removed(ms *yang.Modules, files []dump.File, count func(int)) *fail {
 	if errs := keep.Process(); len(errs) > 0 {
 		return nil
 	}
+	// the set that keeps the targets is a set like any other: every lookup between its nodes - from
+	// and to the retained ones too - finds the node the path names
+	if f := lookups(keep, count); f != nil {
+		f.fp += ":targets-of-not-supported-retained"
+		return f
+	}
 	key := func(n *node) string {
 		k := n.tree
 		for _, st := range n.steps {
